@@ -267,3 +267,6 @@ PROPS["C13"]["trusted_base"] = PROPS["C13"]["trusted_base"] + ["wtmo: no model; 
 
 # the case lines of this kind are long (whole conversations in hex, twice): a smaller in-Coq sample
 PROPS["C13"]["shard"] = {"wtmo": 16}
+
+PROPS["C12"]["kinds"] = PROPS["C12"]["kinds"] + ["c11"]
+PROPS["C17"]["kinds"] = PROPS["C17"]["kinds"] + ["tmo"]
